@@ -47,6 +47,7 @@ structure Link (scn : Scn) (s : St) (m : Mon) (used : List Nat) : Prop where
   answered : ∀ id, (m.answered.filter (· = id)).length = ((reqsOf (scn.msgsUpTo m.nComplete)).filter (·.1 = id)).length
   started : ∀ k ∈ m.started, k ∈ used
   posted : ∀ k ∈ m.posted, k ≠ 0 → k ∈ m.started
+  finished : ∀ k ∈ m.finished, k ≠ 0 ∧ k ∈ m.posted
   pend : ∀ k, k ≠ 0 → (k ∈ s.pending ↔ (k ∈ m.posted ∧ k ∉ m.finished))
   nodup : s.pending.Nodup
   rdead : s.rdead = false
@@ -248,6 +249,7 @@ theorem link_after_feed (scn : Scn) (s s' : St) (m : Mon) (used : List Nat) (c :
       answered := ?_
       started := by simp only [monNext, hop, hcm]; exact L.started
       posted := ?_
+      finished := ?_
       pend := ?_
       nodup := by rw [hpend]; exact hRun_nodup _ _ _ hP
       rdead := hs'.rdead
@@ -274,6 +276,14 @@ theorem link_after_feed (scn : Scn) (s s' : St) (m : Mon) (used : List Nat) (c :
     · split at hk
       · simp at hk
       · simp only [List.mem_cons, List.not_mem_nil, or_false] at hk; exact absurd hk hk0
+  · intro k hk
+    rw [hfm] at hk
+    rw [hpm]
+    rcases List.mem_append.mp hk with hk | hk
+    · exact ⟨(L.finished k hk).1, List.mem_append_left _ (L.finished k hk).2⟩
+    · obtain ⟨d, hd, rfl⟩ := List.mem_map.mp hk
+      obtain ⟨hd0, hdP, _⟩ := d1 d hd
+      exact ⟨hd0, List.mem_append_left _ ((hPrel d.1 hd0).mp hdP).1⟩
   · intro k hk0
     rw [hpend, hRun_pend _ _ _ hP, hfm, hpm]
     constructor
@@ -445,6 +455,7 @@ theorem link_feed (scn : Scn) (hh : Healthy scn) (s : St) (m : Mon) (used : List
             answered := by intro id; rw [hnc, hmsgs0, ← L.answered id]; simp [monNext, c4, c7, respIdsOf, postsOf]
             started := by simp only [monNext, c6, c4]; exact L.started
             posted := by simp only [monNext, c6, c4, c7, callsIn, postsOf, List.filterMap_nil, List.append_nil]; exact L.posted
+            finished := by simp only [monNext, c4, c7, callsIn, postsOf, donesOf, List.filterMap_nil, List.map_nil, List.append_nil]; exact L.finished
             pend := by simp only [monNext, c4, c7, callsIn, postsOf, donesOf, List.filterMap_nil, List.map_nil, List.append_nil]; exact L.pend
             nodup := L.nodup
             rdead := L.rdead
@@ -507,5 +518,182 @@ theorem link_feed (scn : Scn) (hh : Healthy scn) (s : St) (m : Mon) (used : List
       · exact hcr
       · exact hfedle
       · omega
+
+/-! ### calls, `fin`, `connect` -/
+
+theorem newMsgs_self (scn : Scn) (n : Nat) : newMsgs scn n n = [] := by
+  unfold newMsgs
+  have : (scn.items.take n).drop n = [] := by
+    apply List.drop_eq_nil_of_le; simp [List.length_take]; omega
+  rw [this]; rfl
+
+/-- the context of a step that feeds nothing (call, fin) on healthy books -/
+theorem mkCtx_still (scn : Scn) (hh : Healthy scn) (m : Mon) (op : Op) (toks : List Tok) (hex : m.excused = false)
+    (hop : (∃ k l, op = .call k l) ∨ op = .fin) :
+    let c := mkCtx scn m op toks
+    c.n' = m.nComplete ∧ c.live = [] ∧ c.excused' = false ∧ c.m = m ∧ c.scn = scn ∧ c.op = op ∧ c.toks = toks := by
+  have hpf : (postsOf toks).any (fun p => !scn.postOk p) = false := by simp [hh.posts]
+  rcases hop with ⟨k, l, rfl⟩ | rfl <;>
+    simp [mkCtx, hex, hh.ep, hpf, newMsgs_self, livePrefix]
+
+theorem link_call (scn : Scn) (hh : Healthy scn) (s : St) (m : Mon) (used : List Nat) (L : Link scn s m used)
+    (k : Nat) (isList : Bool) (hk0 : k ≠ 0) (hku : k ∉ used) :
+    monCheck (mkCtx scn m (.call k isList) (step scn repaired s (.call k isList)).2) = none ∧
+    Link scn (step scn repaired s (.call k isList)).1 (monNext (mkCtx scn m (.call k isList) (step scn repaired s (.call k isList)).2)) (k :: used) := by
+  have hkst : k ∉ m.started := fun h => hku (L.started k h)
+  have hkpo : k ∉ m.posted := fun h => hkst (L.posted k h hk0)
+  have hkfi : k ∉ m.finished := fun h => hkpo (L.finished k h).2
+  have hkpe : k ∉ s.pending := fun h => hkpo ((L.pend k hk0).mp h).1
+  by_cases hhd : s.handed = true
+  · -- a session exists: the request is POSTed and registered
+    have hcr : s.connRet = true := by rw [← L.handed]; exact hhd
+    have hup : s.phase = .up ∧ (0 ∈ s.pending ↔ s.connRet = false) := by
+      rcases L.phase with ⟨_, _, _, h, _⟩ | ⟨h1, _, _, h4⟩
+      · rw [hcr] at h; cases h
+      · exact ⟨h1, h4⟩
+    have hstep : step scn repaired s (.call k isList) =
+        ({ s with lists := if isList then k :: s.lists else s.lists, pending := s.pending ++ [k] },
+         [.post (.call k), .url s.target]) := by
+      simp [step, hhd, L.done, St.shutting, L.closing, L.rdead, L.wdead, hh.posts, withUrl]
+    rw [hstep]
+    obtain ⟨c1, c2, c3, c4, c5, c6, c7⟩ := mkCtx_still scn hh m (.call k isList) [.post (.call k), .url s.target] L.excused (Or.inl ⟨k, isList, rfl⟩)
+    generalize mkCtx scn m (.call k isList) [.post (.call k), .url s.target] = c at c1 c2 c3 c4 c5 c6 c7
+    constructor
+    · apply monCheck_none
+      · intro t ht; rw [c7] at ht; simp at ht; rcases ht with rfl | rfl <;> rfl
+      · rw [c7]; rfl
+      · rw [c7]; simp
+      · rw [c7]; simp
+      · rw [c7]; simp
+      · rw [c7]; rfl
+      · rw [c2]; rfl
+      · rw [c4]; exact L.termSeen
+      · rw [notifs_eq, c1, c4, c5, c7, L.nts]; simp [ntsOf, isSubseq_refl]
+    · have hnc : (monNext c).nComplete = m.nComplete := by simp [monNext, c1]
+      exact
+        { excused := by simp [monNext, c3]
+          termSeen := by simp [monNext, c4, c7, L.termSeen]
+          mbody := by simp [monNext, c4, L.mbody]
+          sbody := L.sbody
+          fed := by simp [monNext, c6, c4, L.fed]
+          ncomp := by rw [hnc]; exact L.ncomp
+          lists := by cases isList <;> simp [monNext, c6, c4, L.lists]
+          connRet := by simp [monNext, c4, c7, L.connRet]
+          nts := by rw [hnc]; simp [monNext, c4, c7, ntsOf, L.nts]
+          answered := by intro id; rw [hnc, ← L.answered id]; simp [monNext, c4, c7, respIdsOf, postsOf]
+          started := by
+            intro k' hk'
+            simp only [monNext, c6, c4, c7] at hk'
+            have : k' ∈ k :: m.started := by simpa using hk'
+            rcases List.mem_cons.mp this with rfl | h
+            · simp
+            · exact List.mem_cons_of_mem _ (L.started k' h)
+          posted := by
+            intro k' hk' hk'0
+            have hp : (monNext c).posted = m.posted ++ [k] := by simp [monNext, c4, c7, callsIn, postsOf]
+            have hs : (monNext c).started = k :: m.started := by simp [monNext, c6, c4, c7]
+            rw [hp] at hk'; rw [hs]
+            rcases List.mem_append.mp hk' with h | h
+            · exact List.mem_cons_of_mem _ (L.posted k' h hk'0)
+            · simp at h; simp [h]
+          finished := by
+            intro k' hk'
+            have hf : (monNext c).finished = m.finished := by simp [monNext, c4, c7, donesOf]
+            have hp : (monNext c).posted = m.posted ++ [k] := by simp [monNext, c4, c7, callsIn, postsOf]
+            rw [hf] at hk'; rw [hp]
+            exact ⟨(L.finished k' hk').1, List.mem_append_left _ (L.finished k' hk').2⟩
+          pend := by
+            intro k' hk'0
+            have hf : (monNext c).finished = m.finished := by simp [monNext, c4, c7, donesOf]
+            have hp : (monNext c).posted = m.posted ++ [k] := by simp [monNext, c4, c7, callsIn, postsOf]
+            rw [hf, hp]
+            simp only [List.mem_append, List.mem_cons, List.not_mem_nil, or_false]
+            constructor
+            · rintro (h | rfl)
+              · exact ⟨Or.inl ((L.pend k' hk'0).mp h).1, ((L.pend k' hk'0).mp h).2⟩
+              · exact ⟨Or.inr rfl, hkfi⟩
+            · rintro ⟨h | rfl, h2⟩
+              · exact Or.inl ((L.pend k' hk'0).mpr ⟨h, h2⟩)
+              · exact Or.inr rfl
+          nodup := by
+            rw [List.nodup_append]
+            exact ⟨L.nodup, by simp, by intro a ha b hb; simp at hb; subst hb; rintro rfl; exact hkpe ha⟩
+          rdead := L.rdead
+          wdead := L.wdead
+          closing := L.closing
+          done := L.done
+          closeWait := L.closeWait
+          handed := L.handed
+          fedle := L.fedle
+          phase := by
+            rcases L.phase with ⟨_, _, _, h, _⟩ | ⟨h1, h2, h3, h4⟩
+            · rw [hcr] at h; cases h
+            · refine Or.inr ⟨h1, by rw [hnc]; exact h2, by rw [hnc]; exact h3, ?_⟩
+              simp only [List.mem_append, List.mem_cons, List.not_mem_nil, or_false]
+              constructor
+              · rintro (h | h)
+                · exact h4.mp h
+                · exact absurd h.symm hk0
+              · intro h; exact Or.inl (h4.mpr h) }
+  · -- no session yet: the harness reports `nosession`
+    have hhd' : s.handed = false := by simpa using hhd
+    have hstep : step scn repaired s (.call k isList) =
+        ({ s with lists := if isList then k :: s.lists else s.lists }, [.nosession]) := by
+      simp [step, hhd']
+    rw [hstep]
+    obtain ⟨c1, c2, c3, c4, c5, c6, c7⟩ := mkCtx_still scn hh m (.call k isList) [.nosession] L.excused (Or.inl ⟨k, isList, rfl⟩)
+    generalize mkCtx scn m (.call k isList) [.nosession] = c at c1 c2 c3 c4 c5 c6 c7
+    constructor
+    · apply monCheck_none
+      · intro t ht; rw [c7] at ht; simp at ht; subst ht; rfl
+      · rw [c7]; rfl
+      · rw [c7]; simp
+      · rw [c7]; simp
+      · rw [c7]; simp
+      · rw [c7]; rfl
+      · rw [c2]; rfl
+      · rw [c4]; exact L.termSeen
+      · rw [notifs_eq, c1, c4, c5, c7, L.nts]; simp [ntsOf, isSubseq_refl]
+    · have hnc : (monNext c).nComplete = m.nComplete := by simp [monNext, c1]
+      exact
+        { excused := by simp [monNext, c3]
+          termSeen := by simp [monNext, c4, c7, L.termSeen]
+          mbody := by simp [monNext, c4, L.mbody]
+          sbody := L.sbody
+          fed := by simp [monNext, c6, c4, L.fed]
+          ncomp := by rw [hnc]; exact L.ncomp
+          lists := by cases isList <;> simp [monNext, c6, c4, L.lists]
+          connRet := by simp [monNext, c4, c7, L.connRet]
+          nts := by rw [hnc]; simp [monNext, c4, c7, ntsOf, L.nts]
+          answered := by intro id; rw [hnc, ← L.answered id]; simp [monNext, c4, c7, respIdsOf, postsOf]
+          started := by
+            intro k' hk'
+            simp only [monNext, c6, c4, c7] at hk'
+            have : k' ∈ m.started := by simpa using hk'
+            exact List.mem_cons_of_mem _ (L.started k' this)
+          posted := by
+            have hp : (monNext c).posted = m.posted := by simp [monNext, c4, c7, callsIn, postsOf]
+            have hs : (monNext c).started = m.started := by simp [monNext, c6, c4, c7]
+            rw [hp, hs]; exact L.posted
+          finished := by
+            have hf : (monNext c).finished = m.finished := by simp [monNext, c4, c7, donesOf]
+            have hp : (monNext c).posted = m.posted := by simp [monNext, c4, c7, callsIn, postsOf]
+            rw [hf, hp]; exact L.finished
+          pend := by
+            have hf : (monNext c).finished = m.finished := by simp [monNext, c4, c7, donesOf]
+            have hp : (monNext c).posted = m.posted := by simp [monNext, c4, c7, callsIn, postsOf]
+            rw [hf, hp]; exact L.pend
+          nodup := L.nodup
+          rdead := L.rdead
+          wdead := L.wdead
+          closing := L.closing
+          done := L.done
+          closeWait := L.closeWait
+          handed := L.handed
+          fedle := L.fedle
+          phase := by
+            have hf : (monNext c).finished = m.finished := by simp [monNext, c4, c7, donesOf]
+            have hp : (monNext c).posted = m.posted := by simp [monNext, c4, c7, callsIn, postsOf]
+            rw [hnc, hf, hp]; exact L.phase }
 
 end SseClient
